@@ -21,6 +21,8 @@ type OSProfile struct {
 	NeverReady   bool   // some workloads never become ready / stay stale
 	NoForge      bool   // third parties never forge ownership by one of the generated sets
 	CompletePrev bool   // every set names all earlier sets as previous (no contested objects)
+	Sliced       int    // 0 inline; 1 move phase objects into hand-made ObjectSlices
+	OldestFirst  bool   // archive/delete operations only hit the oldest set still alive (no re-create race among older revisions)
 	AllLate      bool   // every set but the first is created by its own user operation
 	DriftOnly    bool   // the intruder only edits managed fields, deletes, and blocks deletion (C10)
 }
@@ -95,6 +97,7 @@ type OSGen struct {
 	Pool     []poolObj
 	Workload *WorkloadAgent
 	NoForge  bool
+	PhaseOf  map[string]map[string]int // set name -> object key (as written, ns defaulted) -> phase index
 }
 
 func phaseName(i int) string { return []string{"alpha", "bravo", "charlie", "delta"}[i] }
@@ -182,6 +185,19 @@ func GenOS(w *World, prof OSProfile) *Scenario {
 			}
 		}
 	}
+	g.PhaseOf = map[string]map[string]int{}
+	for _, o := range specs {
+		m := map[string]int{}
+		for _, so := range SpecObjects(o, nil) {
+			m[so.Key.String()] = so.Phase
+		}
+		g.PhaseOf[store.Str(o, "metadata", "name")] = m
+	}
+	if prof.Sliced == 1 {
+		for _, o := range specs {
+			sliceSet(w, g, o)
+		}
+	}
 	// creation: at setup or later
 	for i, o := range specs {
 		o := o
@@ -198,10 +214,19 @@ func GenOS(w *World, prof OSProfile) *Scenario {
 	}
 	if prof.Lifecycle {
 		nOps := s.Intn(4, "nLifecycleOps")
+		tornDown := 0
 		for i := 0; i < nOps; i++ {
 			name := g.Names[s.Intn(len(g.Names), "lc-target")]
+			op := s.Intn(5, "lc-op")
+			if prof.OldestFirst && op >= 2 {
+				if tornDown >= len(g.Names) {
+					continue
+				}
+				name = g.Names[tornDown]
+				tornDown++
+			}
 			key := store.Key{Group: PKOGroup, Kind: g.Kind, Namespace: g.NS, Name: name}
-			switch s.Intn(5, "lc-op") {
+			switch op {
 			case 0:
 				sc.UserOps = append(sc.UserOps, UserOp{Label: "pause " + name, Do: func(w *World) { setLifecycle(w, key, "Paused") }})
 			case 1:
@@ -309,6 +334,7 @@ func genTemplateSpec(w *World, g *OSGen, prof OSProfile, i int) map[string]any {
 	nPh := 1 + s.Intn(3, "nPhases")
 	used := map[int]bool{}
 	var phases []any
+	var allObjs []any
 	for pi := 0; pi < nPh; pi++ {
 		ph := map[string]any{"name": phaseName(pi)}
 		if prof.Delegation {
@@ -351,9 +377,20 @@ func genTemplateSpec(w *World, g *OSGen, prof OSProfile, i int) map[string]any {
 			}
 			objs = append(objs, entry)
 		}
+		if prof.Violations && s.Chance(1, 3, "violator") {
+			v := genViolator(w, g, s.Intn(7, "violator-kind"))
+			if v != nil {
+				at := s.Intn(len(objs)+1, "violator-pos")
+				objs = append(objs[:at], append([]any{v}, objs[at:]...)...)
+			}
+		}
+		if prof.Violations && len(allObjs) > 0 && s.Chance(1, 8, "duplicate") {
+			objs = append(objs, store.Copy(map[string]any{"x": allObjs[s.Intn(len(allObjs), "dup-idx")]})["x"])
+		}
 		if len(objs) == 0 {
 			continue
 		}
+		allObjs = append(allObjs, objs...)
 		ph["objects"] = objs
 		phases = append(phases, ph)
 	}
@@ -380,4 +417,83 @@ func genTemplateSpec(w *World, g *OSGen, prof OSProfile, i int) map[string]any {
 		spec["successDelaySeconds"] = int64(5 + s.Intn(60, "delay"))
 	}
 	return spec
+}
+
+// genViolator returns a phase entry that must fail preflight.
+func genViolator(w *World, g *OSGen, kind int) map[string]any {
+	explicit := ""
+	if g.Cluster {
+		explicit = nsMain
+	}
+	switch kind {
+	case 0: // unknown API
+		return map[string]any{"object": map[string]any{"apiVersion": "ghost.example/v1", "kind": "Ghost", "metadata": map[string]any{"name": "gh-a", "namespace": nsMain}}}
+	case 1: // preset ownerReferences
+		o := mkObject(poolObj{"ConfigMap", "v1", "cm-owned", "", false}, 1, explicit)
+		store.Meta(o)["ownerReferences"] = []any{map[string]any{"apiVersion": "v1", "kind": "ConfigMap", "name": "someone", "uid": "uid-x"}}
+		return map[string]any{"object": o}
+	case 2: // foreign namespace
+		return map[string]any{"object": mkObject(poolObj{"ConfigMap", "v1", "cm-foreign", "", false}, 1, nsForeign)}
+	case 3: // cluster-scoped kind without namespace
+		return map[string]any{"object": mkObject(poolObj{"ClusterRole", "rbac.authorization.k8s.io/v1", "cr-v", "", true}, 1, "")}
+	case 4: // cluster-scoped kind with the owner's namespace set
+		o := mkObject(poolObj{"ClusterWidget", "sim.example/v1", "cw-v", "", true}, 1, "")
+		store.Meta(o)["namespace"] = nsMain
+		return map[string]any{"object": o}
+	case 5: // rejected by the server-side dry run
+		o := mkObject(poolObj{"Deployment", "apps/v1", "dep-invalid", "", false}, 1, explicit)
+		o["spec"].(map[string]any)["simInvalid"] = true
+		return map[string]any{"object": o}
+	case 6: // namespaced kind without namespace under a cluster-scoped owner
+		if g.Cluster {
+			return map[string]any{"object": mkObject(poolObj{"ConfigMap", "v1", "cm-nons", "", false}, 1, "")}
+		}
+	}
+	return nil
+}
+
+// sliceSet moves the objects of every phase of a (Cluster)ObjectSet into
+// hand-made ObjectSlices (created right away) and rewrites the phases to
+// reference them. No choices are consumed, so an inline and a sliced run of
+// the same scenario stream describe the same objects.
+func sliceSet(w *World, g *OSGen, set store.Obj) {
+	kind := "ObjectSlice"
+	if g.Cluster {
+		kind = "ClusterObjectSlice"
+	}
+	name := store.Str(set, "metadata", "name")
+	for _, px := range PhasesOf(set) {
+		p, _ := px.(map[string]any)
+		objs, _ := p["objects"].([]any)
+		if len(objs) == 0 {
+			continue
+		}
+		// first object stays inline when there are 3 or more; the rest is split into slices of at most 2
+		var inline []any
+		rest := objs
+		if len(objs) >= 3 {
+			inline, rest = objs[:1], objs[1:]
+		}
+		var names []any
+		for i := 0; i < len(rest); i += 2 {
+			end := i + 2
+			if end > len(rest) {
+				end = len(rest)
+			}
+			sn := fmt.Sprintf("%s-%s-%d", name, p["name"], i/2)
+			sl := store.Obj{"apiVersion": PKOGroup + "/" + PKOVer, "kind": kind, "metadata": map[string]any{"name": sn}, "objects": store.Copy(map[string]any{"x": rest[i:end]})["x"]}
+			if !g.Cluster {
+				store.Meta(sl)["namespace"] = g.NS
+			}
+			_, err := w.TP("user", w.Mgmt).Create(sl)
+			must(err)
+			names = append(names, sn)
+		}
+		if len(inline) > 0 {
+			p["objects"] = inline
+		} else {
+			delete(p, "objects")
+		}
+		p["slices"] = names
+	}
 }
